@@ -750,9 +750,22 @@ func compactToSliceOfSlice(compact [][2]int) [][]int {
 //	process(buf)
 func (r *Regex) AppendAllIndex(dst [][2]int, b []byte, n int) [][2]int {
 	if n == 0 {
-		return nil
+		return dst
 	}
-	return r.engine.FindAllIndicesStreaming(b, n, dst)
+	if len(dst) == 0 {
+		// Nothing to preserve: let the engine fill dst's backing array (or a fresh one).
+		return r.engine.FindAllIndicesStreaming(b, n, dst)
+	}
+	// The engine resets the slice it is given to length 0 before filling it, so hand it
+	// only the spare capacity behind dst's elements. If the matches fit there, they are
+	// already in place right after dst[len(dst)-1]; otherwise the engine moved to a new
+	// array and the matches are copied behind dst.
+	spare := cap(dst) - len(dst)
+	matches := r.engine.FindAllIndicesStreaming(b, n, dst[len(dst):])
+	if len(matches) <= spare {
+		return dst[:len(dst)+len(matches)]
+	}
+	return append(dst, matches...)
 }
 
 // AppendAllStringIndex appends all successive match index pairs for the string
